@@ -26,11 +26,11 @@ static const double DOC_SERIES_NM = 5;    // TransverseMercator.hpp: 5 nm within
 static const double DOC_EXACT_NM = 8;     // TransverseMercatorExact.hpp: 8 nm
 static const double DOC_K_REL = 6e-14;    // 6e-12 % (series), 7e-12 % (exact)
 static const double C_TRUNC_FWD = 12;     // position: C a |n|^7 cosh(14 eta')/(1-r) truncation model of the 6th-order series; calibrated once (max seen 7.5)
-static const double C_TRUNC_REV = 5;      // same for the reverted series (max seen 2.6)
+static const double C_TRUNC_REV = 6;      // same for the reverted series (max seen 3.6)
 static const double C_TRUNC_G = 80, C_TRUNC_K = 120;   // gamma [rad], k [rel]: C |n|^7 cosh(14 eta')/(1-r)^2 (max seen 45, 73)
-static const double C_TRUNC_GR = 8, C_TRUNC_KR = 8;    // Reverse (max seen ~4)
+static const double C_TRUNC_GR = 25, C_TRUNC_KR = 8;   // Reverse (max seen 14, 3.8)
 static const double R_MAX = 0.3;          // series judged against REF only while r = |n| exp(2 eta') <= R_MAX
-static const double TOL_JAC = 4e-9;       // finite-difference Jacobian: singular values / rotation vs k, gamma
+static const double TOL_JAC = 1.5e-9;      // finite-difference Jacobian: singular values / rotation vs k, gamma
 
 static inline uint64_t dbits(double v) { uint64_t u; std::memcpy(&u, &v, 8); return u; }
 static inline bool same(double a, double b) { return dbits(a) == dbits(b); }
@@ -46,10 +46,16 @@ struct Cfg {
   bool ext() const { return cls == EXACT_EXT || cls == DELEG_EXT; }
   double es() const { return std::sqrt(std::fabs(f * (2 - f))); }
   double branch_deg() const { return f > 0 ? 90 * (1 - es()) : 90; }     // longitude of the branch point on the equator
+  // every call records how many silent convergence failures (GEOGRAPHICLIB_PANIC sites: zetainv / sigmainv Newton, Math::tauf) it hit
+  mutable uint64_t panic_f = 0, panic_r = 0;
   void Forward(double lon0, double lat, double lon, double& x, double& y, double& g, double& k) const {
-    if (sp) sp->Forward(lon0, lat, lon, x, y, g, k); else ep->Forward(lon0, lat, lon, x, y, g, k); }
+    uint64_t p0 = vh::hook::panics();
+    if (sp) sp->Forward(lon0, lat, lon, x, y, g, k); else ep->Forward(lon0, lat, lon, x, y, g, k);
+    panic_f = vh::hook::panics() - p0; }
   void Reverse(double lon0, double x, double y, double& lat, double& lon, double& g, double& k) const {
-    if (sp) sp->Reverse(lon0, x, y, lat, lon, g, k); else ep->Reverse(lon0, x, y, lat, lon, g, k); }
+    uint64_t p0 = vh::hook::panics();
+    if (sp) sp->Reverse(lon0, x, y, lat, lon, g, k); else ep->Reverse(lon0, x, y, lat, lon, g, k);
+    panic_r = vh::hook::panics() - p0; }
   std::string name() const {
     static const char* n[] = {"series", "exact", "exact-extendp", "series(exact=true)", "series(exact=true,extendp)"};
     return std::string(n[cls]) + "/" + rung; }
@@ -135,7 +141,8 @@ static double pos_tol(const Cfg& c, const RefPt& p, bool reverse) {
 // tolerance for gamma (radians) and k (relative): ground tolerance turned into an angle through the conditioning
 // |d ln Mt'/d zeta| = |sin phi_c|, plus round-off, plus (series) the differentiated truncation tail
 static void gk_tol(const Cfg& c, const RefPt& p, double ptol, double& tg, double& tk, bool reverse = false) {
-  double cond = ptol / (double)p.nucos;          // admissible |d zeta|
+  // admissible |d zeta|; exactly at the pole k (= k0) and gamma (= dlon) are well defined and exactly representable: no conditioning term
+  double cond = p.nucos > 0 ? ptol / (double)p.nucos : 0;
   LD n = std::fabs((LD)c.f / (2 - (LD)c.f));
   double tr = c.exact() ? 0 : (double)(std::pow(n, 7) * std::cosh(14 * p.etap) / ((1 - p.r) * (1 - p.r)));
   tg = cond * p.sens + 16 * 2.2e-16 + tr * (reverse ? C_TRUNC_GR : C_TRUNC_G);
@@ -173,6 +180,17 @@ static std::string KY(const Cfg& c, const std::string& base, bool hs = false) {
   return std::string("oracle:C06/exact/forward") + suf;
 }
 
+// convergence-failure hook: inside the documented domain a panic is a violation; in the large-f / high-scale regimes an event
+static void judge_panic(Ctx& ctx, const Cfg& c, bool forward, bool hs, bool judged_domain, const std::string& cls, const J& in) {
+  uint64_t n = forward ? c.panic_f : c.panic_r;
+  if (!n) return;
+  std::string site = std::string(c.exact() ? "exact" : "series") + (forward ? "-forward" : "-reverse");
+  if (c.largef) ctx.event("hook: convergence failure (panic) in " + site + " on a large-f rung");
+  else if (hs) ctx.event("hook: convergence failure (panic) in " + site + " at an extendp-high-scale point");
+  else if (!judged_domain) ctx.event("hook: convergence failure (panic) in " + site + " outside the judged domain");
+  else ctx.viol("hook:C06/panic/" + site, cls, J(in).u("panics", n));
+}
+
 // ------------------------------------------------------------------ the per-point monitor
 // Returns nothing; reports through ctx.  lat in [-90,90].
 static void check_point(Ctx& ctx, const Cfg& c, double lon0, double lat, double lon, bool trivial = false) {
@@ -202,8 +220,10 @@ static void check_point(Ctx& ctx, const Cfg& c, double lon0, double lat, double 
   bool extsheet = c.ext() && lat < 0;                    // extendp: no north/south folding
   const bool hs = extsheet && !(k / c.k0 <= HS_K);
   const std::string HSL = hs ? "/extendp-high-scale" : "";
+  const uint64_t pf_primary = c.panic_f;
   bool in_ext_domain = !c.ext() || (lat >= 0 && ad <= 90 && dlon >= 0) || (lat < 0 && lat > -90 && dlon >= br && dlon <= 90);
   if (c.ext() && !in_ext_domain) { ctx.event("extendp: point outside the documented extendp domain, not judged"); return; }
+  c.panic_f = pf_primary; judge_panic(ctx, c, true, hs, true, cls, in);   // series Forward has no Newton iteration; exact: whole domain is documented
   bool on_cut = c.exact() && !c.ext() && lat == 0 && ad >= br && ad <= 180 - br;   // the cut itself: y is two-valued
   // ---- REF
   RefPt p;
@@ -222,6 +242,7 @@ static void check_point(Ctx& ctx, const Cfg& c, double lon0, double lat, double 
       if (!c.exact()) { LD n = std::fabs((LD)c.f / (2 - (LD)c.f)), mdl = (LD)c.a * std::pow(n, 7) * std::cosh(14 * p.etap) / (1 - p.r);
         if (mdl > 4 * K_POS * DOC_SERIES_NM * 1e-9 * c.a / WGS84_A) ctx.obs("calibration: series forward error / (a |n|^7 cosh(14 eta')/(1-r)) where that model > 80 nm", (double)(err / mdl), in); }
       if (c.exact() && !c.largef && !hs) ctx.obs("exact forward ground error [nm * 6378137/a]", err * 1e9 * WGS84_A / c.a, in);
+      if (!(err <= ptol) && (c.largef || hs)) ctx.event(std::string(c.largef ? "large-f" : "extendp-high-scale") + ": forward position violation " + (pf_primary ? "WITH" : "without") + " a convergence-failure panic in Forward");
       if (!(err <= ptol))
         ctx.viol(KY(c, "oracle:C06/" + kind + "/forward/position", hs), cls, J(in).f("x", x).f("y", y).f("ref_x", (double)p.x).f("ref_y", (double)p.y).f("ground_err_m", err).f("tol_m", ptol));
       double tg, tk; gk_tol(c, p, ptol, tg, tk);
@@ -232,6 +253,15 @@ static void check_point(Ctx& ctx, const Cfg& c, double lon0, double lat, double 
       if (!(eg <= tg)) ctx.viol(KY(c, "oracle:C06/" + kind + "/forward/gamma", hs), cls, J(in).f("gamma", g).f("ref_gamma", (double)p.gamma).f("err_rad", eg).f("tol_rad", tg));
       if (!(ek <= tk)) ctx.viol(KY(c, "oracle:C06/" + kind + "/forward/k", hs), cls, J(in).f("k", k).f("ref_k", (double)p.k).f("err_rel", ek).f("tol_rel", tk));
     } else ctx.event("series: outside judged strip (|dlon|>75 or r>R_MAX): laws only");
+  }
+  // ---- far side of the equator: the sign of y at lat = +-0 is a convention; the two implementations must share it
+  if (lat == 0 && ad > 90 && ad < 180 && !c.ext() && c.f > 0 && c.f <= 0.05 && 180 - ad <= 60) {
+    double xs, ys, gs, ks;
+    if (c.exact()) { TransverseMercator sib(c.a, c.f, c.k0); sib.Forward(lon0, lat, lon, xs, ys, gs, ks); }
+    else { TransverseMercatorExact sib(c.a, c.f, c.k0); sib.Forward(lon0, lat, lon, xs, ys, gs, ks); }
+    ctx.event("far-side equator: series and exact conventions compared");
+    if (!(std::fabs(xs - x) <= 1e-3 * c.a && std::fabs(ys - y) <= 1e-3 * c.a && std::fabs(std::remainder(gs - g, 360.0)) <= 0.1))
+      ctx.viol(KY(c, "law:C06/series-vs-exact/far-side-equator-convention"), cls, J(in).f("x", x).f("y", y).f("gamma", g).f("x_sibling", xs).f("y_sibling", ys).f("gamma_sibling", gs));
   }
   // ---- central meridian identity
   if (dlon == 0 && std::fabs(lat) < 90) {
@@ -248,6 +278,8 @@ static void check_point(Ctx& ctx, const Cfg& c, double lon0, double lat, double 
     double la = vh::sentinel(5), lo = vh::sentinel(6), g2 = vh::sentinel(7), k2 = vh::sentinel(8);
     c.Reverse(lon0, x, y, la, lo, g2, k2);
     bool series_judged = c.exact() || ptol > 0;
+    judge_panic(ctx, c, false, hs, series_judged, cls, in);
+    if (c.largef && c.panic_r) ctx.event("large-f: Reverse(Forward) with a panic in Reverse");
     if (!(std::isfinite(la) && std::isfinite(lo) && std::isfinite(g2) && std::isfinite(k2))) {
       if (series_judged || c.exact()) ctx.viol(KY(c, "law:C06/" + kind + "/roundtrip/non-finite", hs), cls, J(in).f("x", x).f("y", y).f("lat2", la).f("lon2", lo));
     } else if (on_cut || (c.exact() && !c.ext() && lat == 0 && ad > br)) {
@@ -263,6 +295,7 @@ static void check_point(Ctx& ctx, const Cfg& c, double lon0, double lat, double 
       double tol = c.exact() ? 2 * K_POS * DOC_EXACT_NM * 1e-9 * c.a / WGS84_A : ptol + pos_tol(c, p, true);
       if (ad == 180 && std::fabs(std::fabs((double)dl2) - 180) < 1e-9) d = ground(p, lat, fabsq(dlon), la, fabsq(dl2));
       ctx.obs(kind + " Reverse(Forward) ground displacement / tolerance" + LF(c) + HSL, d / tol, J(in).f("d_m", d).f("tol_m", tol).f("lat2", la).f("lon2", lo));
+      if (!(d <= tol) && (c.largef || hs)) ctx.event(std::string(c.largef ? "large-f" : "extendp-high-scale") + ": round-trip violation " + (c.panic_r ? "WITH" : "without") + " a convergence-failure panic in Reverse");
       if (!(d <= tol)) ctx.viol(KY(c, "law:C06/" + kind + "/roundtrip", hs), cls, J(in).f("x", x).f("y", y).f("lat2", la).f("lon2", lo).f("ground_m", d).f("tol_m", tol));
       // Reverse against REF: sigma_REF(zeta') ~ sigma_REF(zeta) + Mt'(zeta) (zeta' - zeta); error vector in the zeta plane =
       // forward error vector / Mt' + round-trip displacement
@@ -460,6 +493,7 @@ static void sec_reverse_xy(Ctx& ctx, uint64_t idx) {
   if (ctx.want_sample(cls_s)) ctx.sample(cls_s, in);
   double la, lo, g, k; c.Reverse(lon0, x, y, la, lo, g, k);
   const bool hs = c.ext() && y < 0 && !(k / c.k0 <= HS_K);
+  judge_panic(ctx, c, false, hs, c.exact() || std::fabs(x) < 0.65 * ak, cls_s, in);
   if (!(std::isfinite(la) && std::isfinite(lo) && std::isfinite(g) && std::isfinite(k))) {
     // the series may overflow far outside its domain (cosh(2 eta) etc. are finite here, so treat as violation only when judged)
     if (c.exact() || std::fabs(x) < 1.3 * ak) ctx.viol(KY(c, "oracle:C06/" + kind + "/reverse/non-finite", hs), cls_s, J(in).f("lat", la).f("lon", lo));
@@ -661,8 +695,9 @@ static void sec_selftest(Ctx& ctx, uint64_t idx) {
   std::string at = buf;
   if (!z.ok) { ctx.event("selftest: point skipped (path within margin of branch point)"); return; }
   const Q A = (Q)a;
-  // (a) q-plane re-quadrature
-  { auto q = R.forward_q((Q)lat, (Q)dl);
+  // (a) q-plane re-quadrature (near side only: beyond 90 deg the straight segment in the q plane passes on the other side of the
+  //     singularity q = atanh(e) + i pi/2 and is no longer homotopic to the image of the zeta path)
+  if (dl <= 90) { auto q = R.forward_q((Q)lat, (Q)dl);
     if (!q.ok || !(hypotq(q.x - z.x, q.y - z.y) <= 1e-22Q * A * (1 + fabsq(z.x / A))) || !(fabsq(q.gamma - z.gamma) <= 1e-20Q) || !(fabsq(q.k / z.k - 1) <= 1e-22Q))
       ctx.herr("ref_tm: zeta-plane and q-plane quadratures disagree" + at);
     ctx.obs("selftest: zeta-plane vs q-plane quadrature |d(x,y)|/a", (double)(hypotq(q.x - z.x, q.y - z.y) / A)); }
@@ -738,11 +773,11 @@ int main(int argc, char** argv) {
   std::vector<Section> S;
   S.push_back({"selftest", 48, 480, false, sec_selftest, 120});
   S.push_back({"directed", n_directed(), n_directed(), false, sec_directed, 60});
-  S.push_back({"series", 15000, 800000, true, sec_series, 60});
-  S.push_back({"exact", 13000, 650000, true, sec_exact, 60});
-  S.push_back({"extendp", 3000, 150000, true, sec_extend, 60});
-  S.push_back({"reverse_xy", 6000, 300000, true, sec_reverse_xy, 60});
-  S.push_back({"jacobian", 20000, 1500000, true, sec_jacobian, 60});
-  S.push_back({"delegation", 4000, 200000, true, sec_deleg, 60});
+  S.push_back({"series", 15000, 500000, true, sec_series, 60});
+  S.push_back({"exact", 13000, 400000, true, sec_exact, 60});
+  S.push_back({"extendp", 3000, 100000, true, sec_extend, 60});
+  S.push_back({"reverse_xy", 6000, 200000, true, sec_reverse_xy, 60});
+  S.push_back({"jacobian", 20000, 1000000, true, sec_jacobian, 60});
+  S.push_back({"delegation", 4000, 150000, true, sec_deleg, 60});
   return vh::run_sections(argc, argv, S);
 }
